@@ -25,6 +25,7 @@ type sigMarker struct {
 	content  interface{} // identity of the signed content (blob pointer)
 	nExtra   int         // extra junk ext-ids appended (changes the count)
 	genuine  bool        // false: signature bytes were corrupted after signing
+	variant  int         // distinguishes byte-different copies that verify alike (RCD-e recovery byte)
 }
 
 const fpkg = "github.com/Factom-Asset-Tokens/factom"
@@ -91,6 +92,28 @@ func registerSigModel(ex *Explorer) {
 		return nil
 	}
 	I[vrtPath+".SealEntry"] = func(in *Interp, fn *ssa.Function, a []Value) Value { return nil }
+	// vrt.MalleateSig(e *factom.Entry): a third party alters the last byte of the first
+	// signature. For an ed25519 (RCD-1) signature that destroys it; for an RCD-e signature the
+	// library verifies sig[:64] only ("ignore recovery byte"), so the altered entry - different
+	// bytes, different entry hash - still carries a valid signature of the same message.
+	I[vrtPath+".MalleateSig"] = func(in *Interp, fn *ssa.Function, a []Value) Value {
+		ec := a[0].(*Cell)
+		ev := in.load(ec).(*StructVal)
+		ext, _ := ev.F[3].(SliceVal)
+		m, ok := ext.Ext.(*sigMarker)
+		if !ok || len(m.signers) == 0 {
+			in.fail("unsupported", "MalleateSig on an entry without modelled signatures")
+		}
+		nm := *m
+		nm.variant = m.variant + 1
+		if !m.rcde[0] {
+			nm.genuine = false
+		}
+		nv := &StructVal{F: append([]Value{}, ev.F...)}
+		nv.F[3] = SliceVal{Ext: &nm}
+		in.storeInto(ec, ec.T, nv)
+		return nil
+	}
 	// fat103.Validate(e factom.Entry, expected map[factom.Bytes32]struct{}, flag int) error
 	I[fpkg+"/fat103.Validate"] = func(in *Interp, fn *ssa.Function, a []Value) Value {
 		f := in.F
